@@ -34,9 +34,9 @@ fn progs() -> &'static Vec<Prog> {
 }
 
 #[derive(Clone, Copy, Debug, PartialEq, Eq)]
-enum Op { StepIn, StepOver, StepOut, RunLimit(u64), Run, RunWhileR0Ne2, BpPc(bool), BpReg(bool), BpMem(bool), Arm(u64), SetCount(u64), Raise(u64) }
-const OPS: [Op; 23] = [Op::StepIn, Op::StepOver, Op::StepOut, Op::RunLimit(0), Op::RunLimit(1), Op::RunLimit(2), Op::RunLimit(5), Op::Run, Op::RunWhileR0Ne2,
-    Op::BpPc(true), Op::BpPc(false), Op::BpReg(true), Op::BpReg(false), Op::BpMem(true), Op::BpMem(false), Op::Arm(0), Op::Arm(1), Op::Arm(3), Op::RunLimit(u64::MAX), Op::SetCount(u64::MAX - 1), Op::SetCount(0), Op::Raise(1), Op::Raise(3)];
+enum Op { StepIn, StepOver, StepOut, RunLimit(u64), Run, RunWhileR0Ne2, BpPc(bool), BpReg(bool), BpMem(bool), Arm(u64), SetCount(u64), Raise(u64), /** the host moves the PC back to the program's entry (public field), as a debugger's "restart" / "set next statement" does */ Goto }
+const OPS: [Op; 24] = [Op::StepIn, Op::StepOver, Op::StepOut, Op::RunLimit(0), Op::RunLimit(1), Op::RunLimit(2), Op::RunLimit(5), Op::Run, Op::RunWhileR0Ne2,
+    Op::BpPc(true), Op::BpPc(false), Op::BpReg(true), Op::BpReg(false), Op::BpMem(true), Op::BpMem(false), Op::Arm(0), Op::Arm(1), Op::Arm(3), Op::RunLimit(u64::MAX), Op::SetCount(u64::MAX - 1), Op::SetCount(0), Op::Raise(1), Op::Raise(3), Op::Goto];
 
 #[derive(Clone, Copy, Debug, PartialEq, Eq)]
 enum Pause { Halt, McrOff, Breakpoint, Tripwire, Unsuccessful }
@@ -121,6 +121,7 @@ fn apply(w: &mut World, op: Op) -> Result<(), (String, String)> {
         Op::SetCount(c) => { w.a.sim.instructions_run = c; w.twin.sim.instructions_run = c; (Ok(()), Ok(())) }
         // the device requests a (priority-1, edge-triggered) interrupt j polls from now: steps that only dispatch an interrupt execute no instruction
         Op::Raise(j) => { for s in [&w.a, &w.twin] { let mut st = s.dev.lock().unwrap_or_else(|e| e.into_inner()); let at = st.poll + j; st.raise_at.push(at); } (Ok(()), Ok(())) }
+        Op::Goto => { w.a.sim.pc = 0x3000; w.twin.sim.pc = 0x3000; (Ok(()), Ok(())) }
         Op::Arm(j) => { for s in [&w.a, &w.twin] { let mut st = s.dev.lock().unwrap_or_else(|e| e.into_inner()); st.clear_mcr_at = Some(st.poll + j); } (Ok(()), Ok(())) }
     };
     if let Err(e) = &exp { if e.starts_with("machinery") { return Err(("machinery:reference".into(), e.clone())); } }
@@ -141,7 +142,7 @@ fn apply(w: &mut World, op: Op) -> Result<(), (String, String)> {
     if w.a.sim.mcr().load(Ordering::Relaxed) != w.twin.sim.mcr().load(Ordering::Relaxed) { return Err((format!("mcr:{}", opname(op)), format!("{what}: MCR {} vs {}", w.a.sim.mcr().load(Ordering::Relaxed), w.twin.sim.mcr().load(Ordering::Relaxed)))); }
     Ok(())
 }
-fn opname(o: Op) -> &'static str { match o { Op::StepIn => "step_in", Op::StepOver => "step_over", Op::StepOut => "step_out", Op::RunLimit(_) => "run_with_limit", Op::Run => "run", Op::RunWhileR0Ne2 => "run_while", Op::Arm(_) => "arm", Op::Raise(_) => "raise", Op::SetCount(_) => "set_count", _ => "breakpoint" } }
+fn opname(o: Op) -> &'static str { match o { Op::StepIn => "step_in", Op::StepOver => "step_over", Op::StepOut => "step_out", Op::RunLimit(_) => "run_with_limit", Op::Run => "run", Op::RunWhileR0Ne2 => "run_while", Op::Arm(_) => "arm", Op::Raise(_) => "raise", Op::SetCount(_) => "set_count", Op::Goto => "set_pc", _ => "breakpoint" } }
 
 fn fingerprint(w: &mut World) -> u64 {
     let s = &w.a.sim;
@@ -170,7 +171,7 @@ fn visit(prog: usize, h: &[u16]) -> Visit {
 }
 
 pub fn run(ctx: &Ctx) -> Report {
-    let mut rep = Report::new("explicit-state BFS, for each of 6 programs (a spin and a call-to-self with the breakpoint on the self-jumping instruction; nested calls 2 deep + loop + PUTS trap + HALT; a store loop for memory breakpoints; the first program under real traps, halting through the OS's MCR write; a straight line), over histories of 21 operations: step_in, step_over, step_out, run_with_limit(0,1,2,5,u64::MAX), the host setting instructions_run to u64::MAX-1 or 0 (documented as resettable), run, run_while(R0 != 2), insert/remove a PC, a register (R0 == 2) and a memory (M != 0) breakpoint, arm an asynchronous MCR clear 0/1/3 polls ahead. After every operation the real simulator is compared with a twin that is driven ONLY by step_in under the documented stop rules (halt, error, breakpoint after an executed step, step limit, tripwire, frame depth, MCR cleared): result, registers, PC, PSR, saved SP, memory, frame depth, instruction count, output, hit_halt/hit_breakpoint, MCR. Any split of a run into segments therefore equals the unbroken run. non-trivial = states at depth >= 1");
+    let mut rep = Report::new("explicit-state BFS, for each of 6 programs (a spin and a call-to-self with the breakpoint on the self-jumping instruction; nested calls 2 deep + loop + PUTS trap + HALT; a store loop for memory breakpoints; the first program under real traps, halting through the OS's MCR write; a straight line), over histories of 24 operations: the host moving the PC back to x3000 (so that run-style calls and single steps also start from machines that have halted, paused or faulted before), step_in, step_over, step_out, run_with_limit(0,1,2,5,u64::MAX), the host setting instructions_run to u64::MAX-1 or 0 (documented as resettable), run, run_while(R0 != 2), insert/remove a PC, a register (R0 == 2) and a memory (M != 0) breakpoint, arm an asynchronous MCR clear 0/1/3 polls ahead. After every operation the real simulator is compared with a twin that is driven ONLY by step_in under the documented stop rules (halt, error, breakpoint after an executed step, step limit, tripwire, frame depth, MCR cleared): result, registers, PC, PSR, saved SP, memory, frame depth, instruction count, output, hit_halt/hit_breakpoint, MCR. Any split of a run into segments therefore equals the unbroken run. non-trivial = states at depth >= 1");
     let depth = ctx.pick(5usize, 8usize);
     let mut total_states = 0u64; let mut total_tr = 0u64; let mut frontier_total = 0u64;
     for prog in [0usize, 1, 2, 3, 5, 6] {
